@@ -77,3 +77,31 @@ Fixpoint spec_run (l : list Z) (ops : list sop) : option (list Z) :=
   | [] => Some l
   | o :: r => obind2 (spec_step l o) (fun l' => spec_run l' r)
   end.
+
+(* the same step for a string type of bounded capacity c: defined only when the std result has at most c
+   characters.  [pre_len] is a lower bound of the result length that is known before the result is built
+   (it only keeps the executable spec from materialising a string of 2^64 characters); SpecFacts.v proves
+   spec_step_fits c l o = Some l' <-> spec_step l o = Some l' /\ slen l' <= c. *)
+Definition pre_len (l : list Z) (o : sop) : Z :=
+  match o with
+  | SAppendFill count _ => slen l + count
+  | SInsertFill _ count _ => slen l + count
+  | SResize count _ => count
+  | SAssignFill count _ => count
+  | _ => 0
+  end.
+
+Definition spec_step_fits (c : Z) (l : list Z) (o : sop) : option (list Z) :=
+  if pre_len l o <=? c then
+    match spec_step l o with
+    | Some l' => if slen l' <=? c then Some l' else None
+    | None => None
+    end
+  else None.
+
+(* a history on a string type of capacity c: every intermediate result must fit *)
+Fixpoint spec_run_fits (c : Z) (l : list Z) (ops : list sop) : option (list Z) :=
+  match ops with
+  | [] => Some l
+  | o :: r => obind2 (spec_step_fits c l o) (fun l' => spec_run_fits c l' r)
+  end.
